@@ -11,6 +11,13 @@ TP == <<
   WhenP(3, Conn(7, Guard(1), TT_, Use(1))), WhenP(5, Conn(7, Guard(6), TT_, Use(6))), WhenP(2, Conn(10, Guard(5), TT_, Use(5))),
   WhenP(2, Probes[3][1]), WhenP(1, Probes[10][1]), WhenP(2, Probes[15][1]), WhenP(2, Probes[16][1]), WhenP(3, Probes[17][1]),
   WhenP(2, Probes[19][1]), WhenP(4, TT_), WhenP(2, FF_), WhenP(5, TT_),
+  \* an error-capable operand (overflow / record-less entity) on either side of a comparison, next to a constant that
+  \* partial evaluation may already know: the comparison must not be folded away
+  WhenP(1, And_(H_(Pv, "mgr"), Or_(B_("less", LitL(5), B_("add", G_(G_(Pv, "mgr"), "n"), LitL(1))), G_(Cv, "flag")))),
+  WhenP(1, And_(H_(Pv, "mgr"), And_(B_("lessEq", LitL(5), G_(G_(Pv, "mgr"), "n")), Not_(G_(Cv, "flag"))))),
+  WhenP(1, And_(H_(Pv, "mgr"), Or_(B_("less", B_("add", G_(G_(Pv, "mgr"), "n"), LitL(1)), LitL(5)), G_(Cv, "flag")))),
+  WhenP(1, Or_(B_("eq", G_(Pv, "n"), B_("mul", G_(G_(Rv, "owner"), "n"), LitL(2))), G_(Cv, "flag"))),
+  WhenP(1, And_(B_("eq", LitL(0), B_("sub", LitL(0), B_("add", G_(G_(Rv, "owner"), "n"), LitL(1)))), Not_(G_(Cv, "flag")))),
   WhenP(2, And_(Probes[16][1], Conn(1, Guard(2), TT_, Use(2)))), WhenP(2, Or_(B_("eq", G_(Rv, "owner"), Pv), Conn(1, Guard(4), TT_, Use(4))))
 >>
 NTP == Len(TP)
